@@ -788,3 +788,17 @@ Lemma after_close_example :
   find current_variant redis_backend
        (run current_variant redis_backend 300000 init (wit_pre ++ [AuthOK 2 20 7; Close 1 10; Tick 5; Close 2 20])) 1 7 = Absent.
 Proof. vm_compute. reflexivity. Qed.
+
+(* a handshake that authenticates but whose response cannot be written is NOT a successful handshake: handleHandshake returns
+   before any registration (the event AuthFail).  Registering before answering (seeded C08-17) = the event AuthOK in its
+   place: the dead connection takes the index and its close removes it, although the client's most recent successful
+   handshake (1, 10) is alive and heart-beating *)
+Definition lost_response_history (registered_before_answer : bool) : list event :=
+  [Connect 1 10; AuthOK 1 10 7; Heartbeat 1 10; Connect 2 20;
+   (if registered_before_answer then AuthOK 2 20 7 else AuthFail 2 20);
+   Close 2 20; Heartbeat 1 10; Tick 1000; Heartbeat 1 10].
+
+Lemma register_before_response_refuted :
+  find current_variant redis_backend (run current_variant redis_backend 300000 init (lost_response_history false)) 2 7 = Found 1 10 /\
+  find current_variant redis_backend (run current_variant redis_backend 300000 init (lost_response_history true)) 2 7 = Absent.
+Proof. split; vm_compute; reflexivity. Qed.
